@@ -396,7 +396,7 @@ func TestVerifC14(t *testing.T) {
 	// (b) stream through the real handleConn
 	s := e2eSettings{Model: "boson", ResX: 5, ResY: 4, FPS: 1, Serial: 77, Firmware: "9.8.7", Min: 1, Max: 2, Preview: 1, Trigger: 1, Constant: true, DeviceName: "c14", DeviceID: 3, BucketSecs: 600}
 	nFrames := []int{3}
-	deadline := 40 * time.Second
+	deadline := 20 * time.Minute // quick does a fixed amount of work; the deadline is only a safety net
 	if r.Thorough() {
 		nFrames = []int{3, 6}
 		deadline = 25 * time.Minute
